@@ -3529,8 +3529,10 @@ class Parser:
             self._prev.text.upper() if self._match_texts(self.DESCRIBE_STYLES) else None
         )
         if self._match(TokenType.DOT):
+            # A kind / style keyword followed by a dot is the first part of a table name; if
+            # neither was consumed only the dot may be un-consumed
+            self._retreat(self._index - (2 if style or kind else 1))
             style = None
-            self._retreat(self._index - 2)
 
         format = self._parse_property() if self._match(TokenType.FORMAT, advance=False) else None
 
